@@ -127,6 +127,7 @@ def check(ctx, m, cfg, api, rule="R-RET"):
                     changed = True
                 if len(node_set(n)) != before:
                     changed = True
+    check.last_sets = {fn: set(node_set(("ret", fn))) for fn in h3fns}
     nchecked = 0
     for fn in sorted(h3fns):
         n = ("ret", fn)
